@@ -159,6 +159,27 @@ def body_after_traffic(rep, case):
     body_tables(rep, case)
 
 
+PORT_LISTS = [[20002, 20003], [10002, 10003], [20002], [20003], [10002], [10003], [20002, 10002], [20003, 10003],
+              [20002, 20003, 10002, 10003], [10003, 10002], []]
+
+
+def body_after_bridges(rep, case):
+    """Bridge objects built (never started) for every combination of the documented ports - classic 20002/20003 and
+    newer-firmware 10002/10003 - as list or tuple: the published category->port tables are constants and must not move."""
+    from aioswitcher.bridge import SwitcherBridge
+    ports = PORT_LISTS[case["ports"] % len(PORT_LISTS)]
+    arg = tuple(ports) if case.get("as_tuple") else list(ports)
+    try:
+        b = SwitcherBridge(lambda d: None, arg) if ports or case.get("explicit_empty") else SwitcherBridge(lambda d: None)
+    except Exception as exc:
+        raise Violation("C19/bridge-construction-raises", case, "a bridge object", f"{type(exc).__name__}: {exc}")
+    if b.is_running is not False:
+        raise Violation("C19/unstarted-bridge-reports-running", case, False, b.is_running)
+    rep.tick("tables-after-bridges", key=case, nontrivial=True, sample=dict(case, port_list=ports))
+    del b
+    body_tables(rep, case)
+
+
 def body_dial(rep, case):
     """Several API objects of both protocol types are constructed first (in the generated order) and connected
     afterwards (in another order): each must reach the fake device on the control port of its own type.  With only the
@@ -235,6 +256,8 @@ def subchecks(tier):
     n = 500 if tier == "thorough" else 50
     subs = [Sub("tables", body_tables, cases=lambda: [{}], shards=1, exhaustive=True),
             Sub("tables-after-traffic", body_after_traffic, cases=lambda: [{"seed": i} for i in range(3)], shards=1, exhaustive=True)]
+    subs.append(Sub("tables-after-bridges", body_after_bridges,
+                    cases=lambda: [{"ports": i, "as_tuple": t} for i in range(len(PORT_LISTS)) for t in (False, True)], shards=1, exhaustive=True))
     subs.append(Sub("api-dials-own-port", body_dial, strategy=strat_dial, n=3000 if tier == "thorough" else 120, shards=1))
     names = sorted(set(type_names()) | {v[0] for v in refb.MODELS.values()})
     for t in names:
